@@ -8,12 +8,12 @@ export CARGO_TARGET_DIR="$wt/target" CARGO_NET_OFFLINE=true
 git checkout -q -- . 2>/dev/null
 mkdir -p "$(dirname "$dest")"; cp "deliver/$m/demo.rs" "$dest"
 tname=$(basename "$dest" .rs)
-cargo test --offline -q -p "$pkg" --test "$tname" >/tmp/confirm_without.log 2>&1; r0=$?
+cargo test --offline -q -p "$pkg" ${FEAT:+--features $FEAT} --test "$tname" >/tmp/confirm_without.log 2>&1; r0=$?
 git apply "deliver/$m/patch.diff" || { echo "patch does not apply"; rm -f "$dest"; exit 3; }
-cargo test --offline -q -p "$pkg" --test "$tname" >/tmp/confirm_with.log 2>&1; r1=$?
+cargo test --offline -q -p "$pkg" ${FEAT:+--features $FEAT} --test "$tname" >/tmp/confirm_with.log 2>&1; r1=$?
 suite_ok=1
 for p in "$pkg" "$@"; do
-  cargo test --offline -p "$p" --lib >/tmp/confirm_suite_$p.log 2>&1
+  cargo test --offline -p "$p" ${FEAT:+--features $FEAT} --lib >/tmp/confirm_suite_$p.log 2>&1
   # failing tests that are not in the baseline's always_fail list (tests needing downloaded sample files)
   bad=$(grep -E "^test .* \.\.\. FAILED" /tmp/confirm_suite_$p.log | sed -E 's/^test (.*) \.\.\. FAILED/\1/' | while read t; do python3 -c "
 import json,sys
